@@ -16,7 +16,8 @@ for f in sorted(glob.glob('/verif/seeded/*/meta.json')):
     rows.append((m['seed'], m['property_targeted'], files, q, th, tgt))
 out = []
 out.append(f"{len(rows)-2} changes written by sub-agents that were given only the text of one property and a scratch worktree")
-out.append("(two rounds, two changes per property and round) plus the reverse patches of the two `fix:` commits.")
+out.append("(rounds 1 and 2: two changes per property and round, suffixes -1..-4; round 3, suffixes -5/-6: eight agents asked for *deep* changes")
+out.append("that need at least 5 operations, 4 actors or 3 keys/members) plus the reverse patches of the two `fix:` commits.")
 out.append("Every one was re-confirmed by me with `seeded/confirm.sh` (demo exits 0 on the unchanged tree and non-zero")
 out.append("with the change; the pinned 132-test baseline passes twice with the change): logs in `seeded/logs/`.")
 out.append("Sweeps: `seeded/run_all.sh <tier>` (frozen copy of /verif; the patch is applied to a scratch copy of /repo,")
@@ -32,6 +33,16 @@ nt = sum(1 for r in rows if r[5] in ('quick',))
 nth = sum(1 for r in rows if r[5] in ('quick', 'thorough'))
 out.append("")
 out.append(f"Totals: {len(rows)} seeds; {nq} raise a violation in at least one quick check; {nt} are caught by the quick check of the very property they were written against, {nth} by its quick or thorough check.")
+out.append("")
+out.append("**Reading the table.**  Every seed is caught by at least one check (93 of 96 in the quick tier, the other three —")
+out.append("C05-6, C09-5, C09-6, all from the *deep* round — by the thorough check of their own property).  Eight deep seeds are")
+out.append("not caught by the property they were written against even in the thorough tier: C01-6, C05-5, C08-5, C20-5 (a pending")
+out.append("nested remove lost by `Orswot::reset_remove`, 5 ops) and C08-6, C20-6 (the same in `Map::reset_remove`, 5-6 ops, 4 actors,")
+out.append("an inner `read_ctx()` remove) lie beyond the history bound of C01/C05/C08/C20 (Map systems with merges: n<=4) but are")
+out.append("caught in the quick tier by C18, which applies `reset_remove` with every grid clock to every reachable state and so")
+out.append("does not need the fifth op; C12-5 and C12-6 misplace a newly inserted element consistently at every replica (their")
+out.append("author says so), which violates C13/C14 (both catch them), not C12.  Seed C20-3 was the one masked by a listed core;")
+out.append("it is what motivated the golden failing-sets (§3.6) and is now caught by C20 (thorough) and C18 (quick).")
 out.append("")
 out.append("**False-alarm test.** 15 behaviour-preserving refactorings (`seeded/benign/R*-*`, written by five sub-agents asked for")
 out.append("observably equivalent rewrites of orswot.rs/vclock.rs, map.rs, mvreg.rs + counters, list/glist/identifier/dot, merkle_reg/ctx/serde)")
